@@ -16,7 +16,7 @@ done
 git -C /repo worktree remove --force "$W"
 mkdir -p "$OUT" "$BD"
 for id in "$@"; do
-  out=$(cd /verif && VERIF_BUILD="$BD" VERIF_PATCHDIR="$PD" VERIF_OUT="$OUT" VERIF_BUDGET_S=${VERIF_BUDGET_S:-100} bin/check "$id" quick 2>&1); rc=$?
+  out=$(cd /verif && VERIF_KEEP_OUT=1 VERIF_BUILD="$BD" VERIF_PATCHDIR="$PD" VERIF_OUT="$OUT" VERIF_BUDGET_S=${VERIF_BUDGET_S:-100} bin/check "$id" quick 2>&1); rc=$?
   if [ $rc -eq 1 ] && echo "$out" | grep -q "^VIOLATION property=$id"; then
     echo "DETECTED $id $(echo "$out" | grep -c '^VIOLATION') keys: $(echo "$out" | grep '^VIOLATION' | sed 's/.*key=\([^ ]*\).*/\1/' | head -4 | tr '\n' ' ')"
   elif [ $rc -eq 0 ]; then echo "MISSED   $id ($(echo "$out" | tail -1 | cut -c1-120))"
